@@ -414,7 +414,38 @@ def _do_corpus(rec: dict, unit: dict):
                             "replay": rp, "agent_file": None, "kind": "corpus"})
 
 
-KINDS = {"game": _do_game, "corpus": _do_corpus, "rewards": _do_rewards, "case": _do_case, "sched": _do_sched, "marl": _do_marl, "probe": _do_probe, "disturb": _do_disturb, "agents": _do_agents}
+def _do_settings(rec: dict, unit: dict):
+    """A shipped scenario whose scripted agent of one type carries other agent_settings (harness/rigs/c01_settings.py)."""
+    from harness.rigs import c01_settings as cs
+    hs = cs.hosts(unit["agent_type"])
+    if not hs:
+        rec["notes"].append(f"no shipped single-agent scenario has a {unit['agent_type']}: settings {unit['overrides']} not placed")
+        return
+    name, base = hs[unit.get("host", 0) % len(hs)]
+    steps = unit["steps"]
+    cfg, ref = cs.with_settings(base, unit["agent_type"], unit["overrides"], unit.get("probs"), max_len=steps)
+    rng: Rng = unit["rng"]
+    n = envrig.n_actions_of(cfg)
+    idle = dist.do_nothing_action(cfg)
+    ops: List[Any] = []
+    for ep in range(unit.get("episodes", 2)):
+        ops.append(["reset", rng.below(2 ** 31), None])
+        ops += [(rng.below(n) if unit.get("random_blue") and rng.chance(1, 3) else idle) for _ in range(steps + 2)]
+    p = envrig.run_ops(cfg, ops, steps)
+    label = f"{name}[{unit['agent_type']} {ref}: {unit['overrides'] or unit.get('probs')}]"
+    if p.raised and p.raised["kind"] == "env-construction-raises" and p.raised.get("exc") in ("ValueError", "ValidationError"):
+        _count(rec, "settings:configurations REJECTED at load with a ValueError (outside C01)")
+        return
+    _absorb(rec, p, label, "agent-settings:" + unit.get("why", "boundary"), cfg, steps)
+    _count(rec, "case:agent-settings:" + unit.get("why", "boundary"))
+    for k, v in unit["overrides"].items():
+        _count(rec, f"agent-settings:{k}={v}")
+    st = p.scripted.get(ref) or {}
+    _count(rec, f"agent-settings:{unit['agent_type']}:actions-executed", st.get("actions", 0))
+    rec["cases"].append((f"{label}|{len(ops)}", True))
+
+
+KINDS = {"settings": _do_settings, "game": _do_game, "corpus": _do_corpus, "rewards": _do_rewards, "case": _do_case, "sched": _do_sched, "marl": _do_marl, "probe": _do_probe, "disturb": _do_disturb, "agents": _do_agents}
 
 
 def _exec_unit(unit: dict) -> dict:
@@ -499,6 +530,16 @@ def _phase1(ctx: Ctx, rng: Rng) -> List[dict]:
         if name in shipped:
             units.append({"kind": "rewards", "label": name, "scenario": name, "rng": rng.fork("rew" + name), "n": ctx.scale(6, 30),
                           "episodes": 2, "steps": ctx.scale(12, 30), "weight": 6})
+    from harness.rigs import c01_settings as cs
+    r_set = rng.fork("settings")
+    for atype in ("periodic-agent", "red-database-corrupting-agent", "probabilistic-agent", "random-agent"):
+        cs.hosts(atype)       # filled before the pool is forked
+    for atype in ("periodic-agent", "red-database-corrupting-agent"):
+        for i, ov in enumerate(cs.boundary_variants(r_set.fork(atype), ctx.scale(5, 40))):
+            if atype != "periodic-agent" and i % 2:
+                ov = {k: v for k, v in ov.items() if k != "max_executions"}
+            units.append({"kind": "settings", "label": f"{atype}-boundary-{i}", "agent_type": atype, "overrides": ov, "steps": cs.steps_needed(ov, 40),
+                          "rng": r_set.fork(f"{atype}{i}"), "random_blue": i % 2 == 1, "why": "boundary", "weight": 2})
     r_ag = rng.fork("agents")
     shards = ctx.scale(1, 4)      # the thorough sweep (256 / 48 configurations) is spread over several units
     for kind, n_cfg in (("tap1", 6), ("tap3", 6)):
@@ -676,8 +717,27 @@ def _search(ctx: Ctx, rng: Rng, raises: List[dict], probes: List[Tuple[dict, dic
     for x in raises:
         groups.setdefault((x["agent_type"], x.get("stage") or "?"), x)
     budget = ctx.scale(30, 160)
+    from harness.rigs import c01_settings as cs
     for (atype, stage), x in groups.items():
         key = f"{atype}:{stage}"
+        if atype in ("periodic-agent", "red-database-corrupting-agent", "probabilistic-agent", "random-agent"):
+            # schedule-driven agents ignore responses: the failing standalone case is mapped back into a scenario file
+            cases = [y for y in raises if y["agent_type"] == atype][:4]
+            us = []
+            for j, y in enumerate(cases):
+                at, ov, probs = cs.overrides_of_case(y["case"])
+                steps = min(120, max(int(y.get("t") or 0) + 4, cs.steps_needed(ov, 80)))
+                for host in range(2):
+                    us.append({"kind": "settings", "label": f"search-{atype}-{j}-{host}", "agent_type": at, "overrides": ov, "probs": probs,
+                               "steps": steps, "host": host, "episodes": 1, "rng": rng.fork(f"set{key}{j}{host}"), "why": "search", "weight": 1})
+            recs = _pool_map(us, n_workers)
+            before = len(env_viol)
+            _merge(ctx, us, recs, all_lines, all_impl, env_viol)
+            ctx.count(f"search:{key}:scenarios-built-from-failing-cases", len(us))
+            hit = next((v for v in env_viol[before:] if v.get("kind") in ("step-raises", "reset-raises")), None)
+            if hit is not None:
+                found[key] = "realised by a scenario carrying the failing case's agent_settings: " + hit["what"][:200]
+            continue
         hit = next((v for v in env_viol if v.get("agent_file") and v["agent_file"] == _agent_file(atype)), None)
         if hit is not None:
             found[key] = "already realised by the disturbed episodes: " + hit["what"][:160]
